@@ -87,6 +87,15 @@ def planViolations (info : NodeInfo) (B : Int) (num den : Nat) (mem : Int) (plan
 def recordedOk (B : Int) (w : Workload) : Bool :=
   piecesRequest { bind := true, cpuNum := w.cpuReq.toNat, cpuDen := 1000, mem := 0 } B == planTotal w.cpuMap
 
+/-- the number of plans must not depend on the order in which the NUMA nodes are visited (capacity and
+    admission are separate Go calls with separate map iterations): evaluated for every permutation -/
+def orderIndependent (numa : List (String × String)) (run : List String → Option Nat) : Bool :=
+  let nodes := numaNodes numa
+  if nodes.length < 2 || 4 < nodes.length then true
+  else match (perms nodes).map run with
+    | [] => true
+    | x :: xs => xs.all (· == x)
+
 def c33Class (B : Int) (info : NodeInfo) (m : CpuMap) : String :=
   if !(m.all fun kv => kv.2 == B) then "fractional" else if !info.cap.numa.isEmpty then "numa" else "whole"
 
@@ -125,7 +134,9 @@ def handle (j : Json) : Json :=
         (if nodeOk && cfgOk && decide (0 < raw.cpuReq) then [crashTag] else []) "crash" false
     else
       let (m, exact) := firstGood cands run (fun o => match o with | .ok ps => plansEq ps implPlans | _ => false)
-      let viol := if nodeOk && cfgOk then planViolations info B req.cpuNum req.cpuDen req.mem implPlans else []
+      let viol0 := if nodeOk && cfgOk then planViolations info B req.cpuNum req.cpuDen req.mem implPlans else []
+      let viol := viol0 ++ (if cfgOk && !orderIndependent info.cap.numa (fun o => match getCPUPlans info org B maxShare req o with
+          | .ok ps => some ps.length | _ => none) then ["C04:order-dependent-count"] else [])
       let c33 : List String :=
         if hasOrigin && nodeOk && cfgOk && wholeCoreNode B info && decide (0 < origin.cpuReq) && recordedOk B origin then
           match implPlans with
